@@ -202,6 +202,9 @@ def trees(ctx):
         yield 'rand', X.random_tree(r, r.randint(4, 7))
 
 
+BLANKS = [' ', '\n', '\t', '  ', '\r\n', '\n   ', ' /* c */ ', ' -- c\n', '\n\n']
+
+
 def run_shard(ctx):
     from mindsdb_sql import parse_sql
     from mindsdb_sql.exceptions import ParsingException
@@ -260,7 +263,12 @@ def run_shard(ctx):
                         # WHERE/HAVING demand an operation; a folded constant such as -1 is not one (not a grouping matter)
                         acc.count('skipped_non_boolean_context')
                         continue
-                    sql = CONTEXTS[c].format(e=text)
+                    etext = text
+                    if (idx + len(c)) % 4 == 1:
+                        # the same token sequence laid out over several lines / with tabs and comments between the tokens
+                        etext = ''.join(r.choice(BLANKS) if ch == ' ' else ch for ch in text)
+                        acc.count('relayouted')
+                    sql = CONTEXTS[c].format(e=etext)
                     acc.ev()
                     try:
                         ast = parse_sql(sql, dialect)
@@ -293,6 +301,18 @@ def run_shard(ctx):
                             continue
                         if got != bare:
                             sig = signature(dialect, bare, got)
+                            # executable defect model for C03-F2: does the grouping come out right once the comments that
+                            # stand between IS and NOT (and only those; a gap of white space alone is left as it is) are replaced by a blank?
+                            sig['cause'] = '-'
+                            if etext != text:
+                                healed = re.sub(r'\bIS\s*(?:/\*(?:(?!\*/).)*\*/|--[^\n]*\n)(?:\s|/\*(?:(?!\*/).)*\*/|--[^\n]*\n)*NOT\b', 'IS NOT', etext, flags=re.S)
+                                if healed != etext:
+                                    try:
+                                        nodes2 = list(find_expr(parse_sql(CONTEXTS[c].format(e=healed), dialect), c))
+                                        if nodes2 and all(fold_neg(fold_neg(shape_of(n2, {}))) == fold_neg(fold_neg(bare)) for n2 in nodes2):
+                                            sig = {'kind': 'precedence', 'dialect': dialect, 'cause': 'comment-between-IS-and-NOT'}
+                                    except Exception:
+                                        pass
                             full_got = _safe_full(got)
                             wit = {'sql': sql, 'dialect': dialect, 'context': c, 'expected_grouping': X.full(bare),
                                    'parsed_grouping': full_got or repr(got)[:300]}
